@@ -55,12 +55,14 @@ Section Safety.
   Definition lok (l : log) : Prop := Forall (in_bounds L) (l_tr l).
   Definition frame (r r' : rdr) : Prop := r_base r' = r_base r /\ r_max r' = r_max r /\ r_rd r <= r_rd r'.
 
-  (* [F]: when does the fuel suffice;  [B]: 28 * (deepest level this call may record) *)
-  Definition safe {A} (F : rdr -> Prop) (B : rdr -> N) (m : M A) : Prop :=
-    forall r l, rok r -> lok l ->
-      let '(x, r', l') := m r l in
-      rok r' /\ frame r r' /\ lok l' /\ x <> Crash /\ (F r -> x <> Fuel) /\ l_ub l' = l_ub l /\
-      (l_dp l' <= l_dp l \/ 28 * l_dp l' <= B r).
+  (* [F]: when does the fuel suffice;  [B]: 28 * (deepest level this call may record);  [P]: bytes a successful call
+     consumes at least *)
+  Definition post {A} (F : rdr -> Prop) (B : rdr -> N) (P : N) (r : rdr) (l : log) (y : res A * rdr * log) : Prop :=
+    let '(x, r', l') := y in
+    rok r' /\ frame r r' /\ lok l' /\ x <> Crash /\ (F r -> x <> Fuel) /\ l_ub l' = l_ub l /\
+    (l_dp l' <= l_dp l \/ 28 * l_dp l' <= B r) /\ (forall a, x = Ok a -> r_rd r + P <= r_rd r').
+  Definition safe {A} (F : rdr -> Prop) (B : rdr -> N) (P : N) (m : M A) : Prop :=
+    forall r l, rok r -> lok l -> post F B P r l (m r l).
 
   Lemma NOLIM_val : NOLIM = 4294967295.  Proof. reflexivity. Qed.
   Lemma W_val : W = 4.  Proof. reflexivity. Qed.
@@ -81,60 +83,190 @@ Section Safety.
   Lemma frame_trans a b c : frame a b -> frame b c -> frame a c.
   Proof. unfold frame; intros (A1 & A2 & A3) (B1 & B2 & B3); repeat split; lia. Qed.
 
-  (* ---------------------------------------------------------------- generic rules *)
-  Lemma safe_ret {A} F B (a : A) : safe F B (ret a).
+
+  (* ---------------------------------------------------------------- proof automation *)
+  Ltac brk :=
+    match goal with
+    | |- context [if (N.eqb ?a ?b) || _ then _ else _] => destruct (N.eqb_spec a b); cbn [orb]
+    | |- context [if (N.ltb ?a ?b) || _ then _ else _] => destruct (N.ltb_spec a b); cbn [orb]
+    | |- context [if (N.leb ?a ?b) && _ then _ else _] => destruct (N.leb_spec a b); cbn [andb]
+    | |- context [if N.leb ?a ?b then _ else _] => destruct (N.leb_spec a b)
+    | |- context [if N.ltb ?a ?b then _ else _] => destruct (N.ltb_spec a b)
+    | |- context [if negb (N.eqb ?a ?b) then _ else _] => destruct (N.eqb_spec a b); cbn [negb]
+    | |- context [if N.eqb ?a ?b then _ else _] => destruct (N.eqb_spec a b)
+    end.
+  Ltac rcbn := unfold pos in *; cbn [r_base r_rd r_max r_bad l_tr l_al l_dp l_ub adv flag set_rd set_max touch charge deepen undef fst snd] in *.
+  Ltac lokt := pose proof HL as HLk; unfold lok, rok in *; rcbn; repeat (apply Forall_cons; [unfold in_bounds; cbn [fst snd]; try lia|]); try assumption.
+  Ltac fin :=
+    pose proof HL as HLf; unfold post, ret, err, crash, nofuel; rcbn;
+    repeat match goal with |- _ /\ _ => split end;
+    try (unfold rok, frame in *; rcbn; repeat split; lia);
+    try lokt; try discriminate; try (intros; discriminate); try (left; rcbn; lia); try (intros; rcbn; lia).
+
+  (* ---------------------------------------------------------------- strings *)
+  Lemma avail_child o n : n < 4294967295 -> avail (mkR o 0 n false) = n.
   Proof.
-    intros r l Hr Hl; cbn. repeat split; try (apply Hr) ; try lia; try assumption; try discriminate.
-    left; lia.
+    intro H. unfold avail; cbn [r_max r_rd]. rewrite NOLIM_val.
+    destruct (N.eqb_spec n 4294967295); [lia|]. destruct (N.ltb_spec 0 n); lia.
   Qed.
 
-  Lemma safe_err {A} F B : safe F B (@err A).
+  Lemma rd_lp_string_safe : safe (fun _ => True) (fun _ => 0) 4 (rd_lp_string bs).
   Proof.
-    intros r l Hr Hl; cbn. repeat split; try (apply Hr); try lia; try assumption; try discriminate.
-    left; lia.
+    pose proof HL as HL'. intros r l Hr Hl. pose proof (avail_ok r Hr) as Ha. unfold rd_lp_string. rewrite W_val.
+    brk; [|fin].
+    assert (Hr1 : rok (adv 4 r)) by (unfold rok in *; rcbn; lia).
+    pose proof (avail_ok _ Hr1) as Ha1.
+    brk; [|fin; unfold rok in *; rcbn; lia].
+    match goal with H : ?n <= avail (adv 4 r) |- _ => set (n0 := n) in *; rename H into Hn end.
+    rewrite Ha1 in Hn. rcbn.
+    unfold read_cstring. rewrite avail_child by (unfold rok in *; lia). rcbn. rewrite NOLIM_val.
+    destruct (N.eqb_spec n0 0) as [Hz|Hz]; [fin; unfold rok in *; lia|].
+    destruct (N.eqb_spec n0 4294967295) as [Hbig|_]; [unfold rok in Hr; lia|].
+    match goal with |- context [nul_index ?w 0] => destruct (nul_index w 0) as [k|] eqn:Ek end.
+    - apply nul_index_bounds in Ek. unfold slice in Ek. rewrite len_takeN in Ek.
+      fin; unfold rok in *; lia.
+    - fin; unfold rok in *; lia.
   Qed.
 
-  (* sequential composition: the second part runs on a reader that has only moved forwards inside the same window *)
-  Lemma safe_bnd {A C} (F : rdr -> Prop) (B : rdr -> N) (F1 : rdr -> Prop) (B1 : rdr -> N)
-        (F2 : A -> rdr -> Prop) (B2 : A -> rdr -> N) (m : M A) (f : A -> M C) :
-    safe F1 B1 m -> (forall a, safe (F2 a) (B2 a) (f a)) ->
-    (forall r, rok r -> F r -> F1 r) ->
-    (forall r r' a, rok r -> rok r' -> frame r r' -> F r -> F2 a r') ->
-    (forall r, rok r -> B1 r <= B r) ->
-    (forall r r' a, rok r -> rok r' -> frame r r' -> B2 a r' <= B r) ->
-    safe F B (bnd m f).
+  Lemma u32_small x : x < 4294967296 -> u32 x = x.
+  Proof. intro H. unfold u32, two32. apply N.mod_small; exact H. Qed.
+
+  (* the reader a DataUnflattenerReadLimiter leaves behind while it is in force *)
+  Lemma limited_rok r lim : rok r -> rok (set_max (u32 (r_rd r + N.min lim (avail r))) r)
+                                    /\ u32 (r_rd r + N.min lim (avail r)) = r_rd r + N.min lim (r_max r - r_rd r).
   Proof.
-    intros Hm Hf HF1 HF2 HB1 HB2 r l Hr Hl. unfold bnd.
-    specialize (Hm r l Hr Hl). destruct (m r l) as [[x r1] l1].
-    destruct Hm as (Hr1 & Hfr1 & Hl1 & Hc1 & Hfu1 & Hub1 & Hd1).
-    assert (Hdep : l_dp l1 <= l_dp l \/ 28 * l_dp l1 <= B r).
-    { destruct Hd1 as [Hd1|Hd1]; [left; exact Hd1 | right; specialize (HB1 r Hr); lia]. }
-    destruct x as [a| | |].
-    - specialize (Hf a r1 l1 Hr1 Hl1). destruct (f a r1 l1) as [[y r2] l2].
-      destruct Hf as (Hr2 & Hfr2 & Hl2 & Hc2 & Hfu2 & Hub2 & Hd2).
-      repeat split; try (apply Hr2); try assumption.
-      + destruct Hfr1 as (X1 & X2 & X3), Hfr2 as (Y1 & Y2 & Y3). lia.
-      + destruct Hfr1 as (X1 & X2 & X3), Hfr2 as (Y1 & Y2 & Y3). lia.
-      + destruct Hfr1 as (X1 & X2 & X3), Hfr2 as (Y1 & Y2 & Y3). lia.
-      + intro HFr. apply Hfu2. eapply HF2; eauto.
-      + lia.
-      + destruct Hd2 as [Hd2|Hd2].
-        * destruct Hdep as [Hd|Hd]; [left; lia | right; lia].
-        * right. specialize (HB2 r r1 a Hr Hr1 Hfr1). lia.
-    - repeat split; try (apply Hr1); try assumption; try (apply Hfr1); try discriminate.
-    - repeat split; try (apply Hr1); try assumption; try (apply Hfr1); try discriminate.
-      intro HFr. apply Hfu1. apply HF1; assumption.
-    - repeat split; try (apply Hr1); try assumption; try (apply Hfr1).
+    intro Hr. rewrite (avail_ok r Hr). unfold rok in *. pose proof HL as HL'. rewrite u32_small by lia. rcbn. split; [lia|reflexivity].
   Qed.
 
-  (* weakening of the fuel condition and the depth bound *)
-  Lemma safe_weaken {A} (F F' : rdr -> Prop) (B B' : rdr -> N) (m : M A) :
-    safe F' B' m -> (forall r, rok r -> F r -> F' r) -> (forall r, rok r -> B' r <= B r) -> safe F B m.
+  Definition fuel_ok (k : nat) (r : rdr) : Prop := avail r < N.of_nat k.
+
+  (* ---------------------------------------------------------------- the item loops *)
+  Lemma fix_items_loop_safe k : forall i n u rsz acc, 0 < rsz ->
+    safe (fuel_ok k) (fun _ => 0) 0 (fix_items_loop bs k i n u rsz acc).
   Proof.
-    intros Hm HF HB r l Hr Hl. specialize (Hm r l Hr Hl). destruct (m r l) as [[x r1] l1].
-    destruct Hm as (A1 & A2 & A3 & A4 & A5 & A6 & A7).
-    repeat split; try (apply A1); try (apply A2); try assumption.
-    - intro H; apply A5, HF; assumption.
-    - destruct A7 as [A7|A7]; [left; assumption | right; specialize (HB r Hr); lia].
+    pose proof HL as HL'. induction k as [|k IH]; intros i n u rsz acc Hrsz r l Hr Hl; pose proof (avail_ok r Hr) as Ha;
+      cbn [fix_items_loop]; brk; try (fin; fail).
+    - fin. intro HF; unfold fuel_ok in HF; cbn in HF; lia.
+    - unfold bnd at 1. unfold with_limit.
+      destruct (limited_rok r u Hr) as [Hr0 Hu]. rewrite Hu in *.
+      set (r0 := set_max _ r) in *.
+      pose proof (avail_ok r0 Hr0) as Ha0. unfold rd_bytes. subst r0.
+      brk.
+      + rcbn.
+        match goal with |- context [fix_items_loop bs k ?i' n u rsz ?acc' ?r' ?l'] =>
+          assert (Hr' : rok r') by (unfold rok in *; rcbn; lia);
+          assert (Hl' : lok l') by (lokt; unfold rok in *; rcbn; lia);
+          pose proof (IH i' n u rsz acc' Hrsz r' l' Hr' Hl') as S; pose proof (avail_ok r' Hr') as Ha';
+          destruct (fix_items_loop bs k i' n u rsz acc' r' l') as [[x r2] l2]
+        end.
+        unfold post in S. destruct S as (S1 & S2 & S3 & S4 & S5 & S6 & S7 & S8). rcbn.
+        unfold post. repeat match goal with |- _ /\ _ => split end; try assumption; try (unfold rok, frame in *; rcbn; lia).
+        intro HF. apply S5. unfold fuel_ok in *. rewrite Ha in HF. rewrite Ha'. rcbn. lia.
+      + fin.
   Qed.
-End Safety.
+
+  (* use a [safe] fact [S] about the call [fn r' l'] that blocks the goal: proves the invariant of the intermediate
+     state, destructs the call's result and leaves the components of its postcondition in the context *)
+  Ltac rokt := pose proof HL as HLr; unfold rok, frame in *; rcbn; lia.
+  Ltac use S fn :=
+    match goal with |- context [fn ?r' ?l'] =>
+      let Hr' := fresh "Hr" in let Hl' := fresh "Hl" in let P := fresh "P" in let Ha' := fresh "Ha" in
+      assert (Hr' : rok r') by rokt;
+      assert (Hl' : lok l') by (lokt; rokt);
+      pose proof (S r' l' Hr' Hl') as P; pose proof (avail_ok r' Hr') as Ha';
+      let x := fresh "x" in let r2 := fresh "r" in let l2 := fresh "l" in
+      destruct (fn r' l') as [[x r2] l2]; unfold post in P;
+      let P1 := fresh "Prok" in let P2 := fresh "Pfr" in let P3 := fresh "Plok" in let P4 := fresh "Pcr" in
+      let P5 := fresh "Pfu" in let P6 := fresh "Pub" in let P7 := fresh "Pdp" in let P8 := fresh "Ppr" in
+      destruct P as (P1 & P2 & P3 & P4 & P5 & P6 & P7 & P8)
+    end.
+  (* close a goal [post ..] on a concrete final state from the facts in the context *)
+  Ltac done_post :=
+    pose proof HL as HLd; unfold post, ret, err, crash, nofuel; rcbn;
+    repeat match goal with |- _ /\ _ => split end;
+    try assumption; try (unfold rok, frame in *; rcbn; lia); try lokt; try discriminate; try (intros; discriminate).
+
+  (* what [done_post] leaves: the fuel implication, the depth alternative, the progress bound *)
+  Ltac rest :=
+    pose proof HL as HLq;
+    try (intro HF;
+         match goal with H : _ -> ?x <> Fuel |- ?x <> Fuel => apply H end;
+         unfold fuel_ok, rok, frame in *; rcbn; lia);
+    try (intro HF; exfalso;
+         match goal with H : _ -> Fuel <> Fuel |- _ => apply H; [|reflexivity] end;
+         unfold fuel_ok, rok, frame in *; rcbn; lia);
+    try (repeat match goal with H : _ \/ _ |- _ => destruct H end; unfold rok, frame in *; rcbn; first [left; lia | right; lia]);
+    try (let a := fresh "a" in let Hx := fresh "Hx" in intros a Hx;
+         repeat match goal with H : forall b, ?x = Ok b -> _ |- _ => specialize (H _ Hx) end;
+         unfold rok, frame in *; rcbn; lia).
+
+  Lemma str_items_loop_safe k : forall i n acc, safe (fuel_ok k) (fun _ => 0) 0 (str_items_loop bs k i n acc).
+  Proof.
+    pose proof HL as HL'. induction k as [|k IH]; intros i n acc r l Hr Hl; pose proof (avail_ok r Hr) as Ha;
+      cbn [str_items_loop]; brk; try (fin; fail).
+    - fin. intro HF; unfold fuel_ok in HF; cbn in HF; lia.
+    - unfold bnd at 1.
+      use rd_lp_string_safe (rd_lp_string bs).
+      destruct x as [s| | |]; try (done_post; fail).
+      + use (IH (i + 1) n (items_snoc acc (IStr s))) (str_items_loop bs k (i + 1) n (items_snoc acc (IStr s))).
+        specialize (Ppr s eq_refl).
+        done_post; rest.
+      + exfalso. apply Pfu; [exact I | reflexivity].
+      + exfalso. apply Pcr. reflexivity.
+  Qed.
+
+  Ltac prims := unfold bnd, rd_u32, rd_val, rd_bytes, status, get_avail, get_pos, get_rd, alloc, enter, note_ub, guard, peek,
+                       seek_to_end, seek_rel, seek_to, ret, err, crash, nofuel.
+  Ltac brk_bad := match goal with |- context [if r_bad ?r then _ else _] => destruct (r_bad r) eqn:? end.
+  Ltac go := repeat (cbv beta iota zeta; rcbn; first [brk | brk_bad]); cbv beta iota zeta; rcbn.
+
+  Lemma raw_items_loop_safe k : forall i n acc, safe (fuel_ok k) (fun _ => 0) 0 (raw_items_loop bs k i n acc).
+  Proof.
+    pose proof HL as HL'. induction k as [|k IH]; intros i n acc r l Hr Hl; pose proof (avail_ok r Hr) as Ha;
+      cbn [raw_items_loop]; brk; try (fin; fail).
+    - fin. intro HF; unfold fuel_ok in HF; cbn in HF; lia.
+    - prims. rewrite W_val, NOLIM_val. unfold two32.
+      assert (Hr4 : 4 <= avail r -> rok (adv 4 r)) by (intro; rokt).
+      go.
+      all: try (done_post; rest; fail).
+      all: try (pose proof (avail_ok _ (Hr4 ltac:(assumption))) as Ha4; rcbn).
+      all: try (exfalso; unfold rok in *; lia).
+      all: match goal with |- context [raw_items_loop _ ?kk ?i' ?nn ?acc'] =>
+             use (IH i' nn acc') (raw_items_loop bs kk i' nn acc') end.
+      all: done_post; rest.
+  Qed.
+
+  (* ---------------------------------------------------------------- one nesting level, given the next *)
+  Section LevelSafe.
+    Variable fx : fixes.
+    Hypothesis Hfx15 : fx15 fx = true.
+    Hypothesis Hfx16 : fx16 fx = true.
+    Variable inner : N -> M msg.
+    Variable lf : nat.
+    Hypothesis Hinner : forall d, safe (fuel_ok lf) (fun r => 28 * d + avail r) 0 (inner d).
+
+    Lemma msg_items_loop_safe k : (k <= lf)%nat -> forall d acc,
+      safe (fuel_ok k) (fun r => 28 * d + avail r + 24) 0 (msg_items_loop bs inner k d acc).
+    Proof.
+      pose proof HL as HL'. induction k as [|k IH]; intros Hk d acc r l Hr Hl; pose proof (avail_ok r Hr) as Ha.
+      - cbn [msg_items_loop]. prims. go; try (done_post; rest; fail).
+        done_post; rest. intro HF; unfold fuel_ok in HF; cbn in HF; lia.
+      - cbn [msg_items_loop]. prims. rewrite W_val.
+        assert (Hr4 : 4 <= avail r -> rok (adv 4 r)) by (intro; rokt).
+        go.
+        all: try (done_post; rest; fail).
+        all: try (pose proof (avail_ok _ (Hr4 ltac:(assumption))) as Ha4; rcbn).
+        all: try (exfalso; unfold rok in *; lia).
+        unfold with_limit.
+        match goal with |- context [set_max (u32 (r_rd ?r0 + N.min ?lim (avail ?r0))) ?r0] =>
+          destruct (limited_rok r0 lim (Hr4 ltac:(assumption))) as [Hrl Hu]; rewrite Hu in * end.
+        rcbn.
+        use (Hinner (d + 1)) (inner (d + 1)).
+        destruct x as [m| | |]; rcbn.
+        4:{ exfalso. apply Pcr. reflexivity. }
+        1:{ match goal with |- context [msg_items_loop _ _ ?kk ?dd ?acc'] =>
+              use (IH ltac:(lia) dd acc') (msg_items_loop bs inner kk dd acc') end.
+            done_post; rest. }
+        all: done_post; rest.
+    Qed.
+  End LevelSafe.
